@@ -36,6 +36,8 @@ type e4Config struct {
 	OnErrorSleepUs int `json:"onErrorSleepUs,omitempty"`
 	// GrantMax: the broker grants min(requested, GrantMax) in SUBACK (0 = grants what was requested)
 	GrantMax int `json:"grantMax,omitempty"`
+	// PingDelayMs: the broker answers PINGREQ that much later
+	PingDelayMs int `json:"pingDelayMs,omitempty"`
 }
 
 type e4Step struct {
@@ -319,6 +321,7 @@ func e4Run(c e4Case) (res *e4Result) {
 	log := &vLog{}
 	b := newVBroker(log, c.Cfg.SessionKept, c.Cfg.MethodB, c.Faults)
 	b.grantMax = c.Cfg.GrantMax
+	b.pingDelay = time.Duration(c.Cfg.PingDelayMs) * time.Millisecond
 	d := &vdialer{b: b, maxRead: c.Cfg.MaxRead}
 	res = &e4Result{Case: c}
 	e := &e4Env{c: c, log: log, b: b, d: d, res: res}
@@ -890,6 +893,8 @@ func e4GenFaults(rt *rapid.T, o e4GenOpts) []e4Fault {
 			f.After = rapid.Bool().Draw(rt, "after")
 		case "refuse":
 			f.Code = rapid.IntRange(1, 5).Draw(rt, "code")
+		case "garbage", "goSilent", "closeAfter":
+			f.Pkt = rapid.IntRange(1, 5).Draw(rt, "pkt")
 		}
 		return f
 	}), 0, o.MaxFaults).Draw(rt, "faults")
